@@ -137,7 +137,7 @@ def main():
     ck.set("traces_validated_against_impl", s["exchanges"])
     ck.set("exhaustive", True)
     ck.set("bounds", {"content_types": 5, "methods": "GET; HEAD x {full,empty} x {none,scriptsrc}", "encodings": 4, "requests": 2, "skip_marker": 2, "csp_shapes": 11, "body_shapes": 11,
-                      "accept_encoding": 2, "sizes": "0, ~1 KiB, 4095..4097, 32767..32769, 65536, 3 MiB (seeded subset)"})
+                      "accept_encoding": 2, "sizes": "0, ~1 KiB, 4095..4097, 32767..32769, 65536, 3 MiB (seeded subset), 4 MiB-1, 4 MiB+1, 8 MiB+1 for one rewritten configuration per supported encoding (thorough: 1 MiB..16 MiB around powers of two, 3 documents)"})
     ck.set("rule", "every abstract configuration (%d)" % NCASES + "  is replayed end to end on the real proxy (rewritten pages at >= 2 body sizes; pass-through at 1 in quick, 8 in thorough); "
                    "documents are well-formed pages stable under x/net/html parse/render/parse")
     ck.assume("Content-Type and Content-Encoding tokens are lower-case as servers send them; Content-Security-Policy: zero, one or two header lines, or one line with a comma-separated policy list")
